@@ -1,15 +1,15 @@
 #!/usr/bin/env python3
 """Builds /verif/seeded/<id>/ (patch.diff, demo_test.go, meta.json) from the sub-agents' deliverables
-in /tmp/seed_out (round 1: <prop>a, <prop>b) and /tmp/seed_out2 (round 2: <prop>c, <prop>d) and the
-evaluation logs in /tmp/seed_eval and /tmp/seed_eval2. A seed is kept only if the demonstration
+in /tmp/seed_out (round 1: <prop>a, <prop>b) and /tmp/seed_out2 (round 2: <prop>c, <prop>d), /tmp/seed_out3 (round 3: <prop>e, <prop>f) and the
+evaluation logs in /tmp/seed_eval, /tmp/seed_eval2 and /tmp/seed_eval3. A seed is kept only if the demonstration
 passed without the change and failed with it (confirmed in a scratch worktree by tools/eval_seed.sh)."""
 import json, os, re, shutil, glob
 OUT='/verif/seeded'
 rows=[]
-for d in sorted(glob.glob('/tmp/seed_out/C[0-9][0-9][ab]'))+sorted(glob.glob('/tmp/seed_out2/C[0-9][0-9][cd]')):
+for d in sorted(glob.glob('/tmp/seed_out/C[0-9][0-9][ab]'))+sorted(glob.glob('/tmp/seed_out2/C[0-9][0-9][cd]'))+sorted(glob.glob('/tmp/seed_out3/C[0-9][0-9][ef]')):
     sid=os.path.basename(d)
     prop=sid[:3]
-    evals=sorted(glob.glob('/tmp/seed_eval/%s*.txt'%sid))+sorted(glob.glob('/tmp/seed_eval2/%s*.txt'%sid),key=os.path.getmtime)
+    evals=sorted(glob.glob('/tmp/seed_eval/%s*.txt'%sid))+sorted(glob.glob('/tmp/seed_eval2/%s*.txt'%sid),key=os.path.getmtime)+sorted(glob.glob('/tmp/seed_eval3/%s*.txt'%sid),key=os.path.getmtime)
     if not evals: continue
     results=[]
     confirmed=False
